@@ -1,8 +1,10 @@
 #include "avtp/acf/Can.h"
 #include <string.h>
 #include "drivers.h"
+/* (variant -1 / -2: the enumerators AVTP_CAN_FD / AVTP_CAN_CLASSIC by name, as application code writes them) */
+static Avtp_CanVariant_t named_variant(int variant) { return variant == -1 ? AVTP_CAN_FD : variant == -2 ? AVTP_CAN_CLASSIC : (Avtp_CanVariant_t)variant; }
 uint64_t drv_can_create(void *pdu, uint32_t id, uint8_t *payload, uint16_t len, int variant) {
-    Avtp_Can_CreateAcfMessage((Avtp_Can_t *)pdu, id, payload, len, (Avtp_CanVariant_t)variant);
+    Avtp_Can_CreateAcfMessage((Avtp_Can_t *)pdu, id, payload, len, named_variant(variant));
     return 0;
 }
 uint64_t drv_can_setpayload(void *pdu, uint8_t *payload, uint16_t len) { Avtp_Can_SetPayload((Avtp_Can_t *)pdu, payload, len); return 0; }
